@@ -232,6 +232,105 @@ pub fn ref_tokens(line: &str) -> Option<Vec<String>> {
     Some(out)
 }
 
+/// One position of an expected token when the line touches an escape the rules leave open
+#[derive(Clone, Debug, PartialEq, Eq)]
+pub enum Pc {
+    Lit(char),
+    /// inside quotes, a backslash followed by `c` (neither quote nor backslash): the token carries `c` or `\c`
+    Esc(char),
+    /// a backslash as the very last character of the line, inside quotes: nothing or a backslash
+    Dangling,
+}
+
+/// Expected tokens as patterns: everything the quoting rules do fix stays fixed - where tokens start and end,
+/// which quote closes a token, every ordinary character - and only the open escapes are left as a choice.
+/// `None` = the line contains NUL.
+pub fn ref_token_patterns(line: &str) -> Option<Vec<Vec<Pc>>> {
+    let chars: Vec<char> = line.chars().collect();
+    if chars.contains(&'\0') {
+        return None;
+    }
+    let mut out = Vec::new();
+    let mut i = 0;
+    while i < chars.len() {
+        let c = chars[i];
+        if c == ' ' {
+            i += 1;
+            continue;
+        }
+        let mut tok = Vec::new();
+        if c == '"' {
+            i += 1;
+            while i < chars.len() {
+                let c = chars[i];
+                if c == '"' {
+                    i += 1;
+                    break;
+                }
+                if c == '\\' {
+                    if i + 1 >= chars.len() {
+                        tok.push(Pc::Dangling);
+                        i += 1;
+                        break;
+                    }
+                    let n = chars[i + 1];
+                    if n == '"' || n == '\\' {
+                        tok.push(Pc::Lit(n));
+                    } else {
+                        tok.push(Pc::Esc(n));
+                    }
+                    i += 2;
+                    continue;
+                }
+                tok.push(Pc::Lit(c));
+                i += 1;
+            }
+        } else {
+            while i < chars.len() && chars[i] != ' ' {
+                tok.push(Pc::Lit(chars[i]));
+                i += 1;
+            }
+        }
+        out.push(tok);
+    }
+    Some(out)
+}
+
+/// Does the token match the pattern?
+pub fn pattern_matches(pat: &[Pc], tok: &str) -> bool {
+    let t: Vec<char> = tok.chars().collect();
+    let mut i = 0;
+    for p in pat {
+        match p {
+            Pc::Lit(c) => {
+                if t.get(i) != Some(c) {
+                    return false;
+                }
+                i += 1;
+            }
+            Pc::Esc(c) => {
+                if t.get(i) == Some(c) {
+                    i += 1;
+                } else if t.get(i) == Some(&'\\') && t.get(i + 1) == Some(c) {
+                    i += 2;
+                } else {
+                    return false;
+                }
+            }
+            Pc::Dangling => {
+                if t.get(i) == Some(&'\\') {
+                    i += 1;
+                }
+            }
+        }
+    }
+    i == t.len()
+}
+
+pub fn patterns_match(pats: &[Vec<Pc>], toks: &[String]) -> bool {
+    pats.len() == toks.len() && pats.iter().zip(toks).all(|(p, t)| pattern_matches(p, t))
+}
+
 /// Does the line open at least one token (used for the count rule when the content is unspecified)
 pub fn has_token(line: &str) -> bool {
     line.chars().any(|c| c != ' ' && c != '\0')
